@@ -1,8 +1,7 @@
-(* load_patterns (Gen/IOGen.v) is translated but NOT yet tied for all inputs (its heap invariant - pattern / occurrence
-   lists reachable from pattern_list - is not proved). What is here is only a SAMPLE evaluated inside Coq on the translated
-   program: the generated program and IO.load_patterns agree on a few concrete files, among them a pattern with exactly one
-   occurrence followed by another pattern header (the case in which the order of the two flush statements matters) and
-   rows with a wrong number of columns / an unparsable number. Not a tie. *)
+(* A SAMPLE evaluated inside Coq on the translated load_patterns (Gen/IOGen.v): the generated program and IO.load_patterns
+   agree on a few concrete files, among them a pattern with exactly one occurrence followed by another pattern header and rows
+   with a wrong number of columns / an unparsable number. Superseded by the universal tie Proofs/IOTiePatterns.v
+   (load_patterns_tie); kept as a quick concrete witness. *)
 From Coq Require Import String Ascii.
 From Coq Require Import List Bool Arith ZArith QArith.
 From ME Require Import Model.Prelude Model.Regex Model.Key Model.IO Model.IoExp Gen.IOGen Model.IoExpInst.
